@@ -7,6 +7,7 @@ import (
 	"io"
 	"os"
 	"path/filepath"
+	"runtime/debug"
 	"sync"
 	"testing"
 
@@ -154,6 +155,29 @@ func runStableCase(c StableCase) (res common.Result) {
 	setMeta, setEpoch := map[int]int{}, map[int]int{}
 	cls := map[string]bool{}
 	var gen uint8
+	// values returned by Get are held and must stay unchanged whatever happens later
+	type heldVal struct {
+		key  int
+		got  []byte
+		snap []byte
+		at   int
+	}
+	var held []heldVal
+	checkHeld := func(where string) (f *common.Failure) {
+		defer func() {
+			if p := recover(); p != nil {
+				f = common.Failf("held-value-unreadable", "%s: a slice returned earlier by Get is no longer readable (%v): it aliased storage owned by the meta DB", where, p)
+			}
+		}()
+		old := debug.SetPanicOnFault(true)
+		defer debug.SetPanicOnFault(old)
+		for _, h := range held {
+			if !bytes.Equal(h.got, h.snap) {
+				return common.Failf("held-value-changed", "%s: the %d-byte value returned by Get(key#%d) at step %d changed afterwards: it aliased storage owned by the meta DB", where, len(h.snap), h.key, h.at)
+			}
+		}
+		return nil
+	}
 	for i, op := range c.Ops {
 		where := fmt.Sprintf("step %d %s", i, op.K)
 		switch op.K {
@@ -168,6 +192,10 @@ func runStableCase(c StableCase) (res common.Result) {
 			}
 			sm[op.Key] = val
 			setMeta[op.Key], setEpoch[op.Key] = metaCommits, epoch
+			if got, err := w.Get(stableKeys[op.Key]); err == nil && len(got) > 0 && len(held) < 12 {
+				held = append(held, heldVal{key: op.Key, got: got, snap: append([]byte{}, got...), at: i})
+				cls["held-get-result"] = true
+			}
 			if op.ValLen >= 1<<20 {
 				cls["value-1MiB"] = true
 			}
@@ -276,6 +304,10 @@ func runStableCase(c StableCase) (res common.Result) {
 			epoch++
 		}
 		if f := checkStable(w, sm, um, lm, "after "+where); f != nil {
+			res.Fail = f
+			return
+		}
+		if f := checkHeld("after " + where); f != nil {
 			res.Fail = f
 			return
 		}
